@@ -1,7 +1,8 @@
 (* C06 - property theorems (statements only; proofs live in theories/Dist*.v).
    P bundles every parameter of the cluster model: the per-block computation (p_upd, p_apply), the communication
    dtype rounding p_cast, world size, group size, number of blocks, the block->rank assignment p_owner (ANY function
-   into the group), and the two switches describing the code as it is (p_global_skip = p_eager_meshes = false). *)
+   into the group), and the two switches: the code as it is has p_global_skip = false (defect F6, known finding) and, since the repair of
+   defect F7, p_eager_meshes = true. *)
 From Coq Require Import List ZArith Bool Arith.
 From Shampoo Require Import Dist DistProofs DistSchedProofs DistWitness DistChecker.
 Import ListNotations.
@@ -82,15 +83,24 @@ Theorem C06_schedules_terminate :
 Proof. exact @schedules_terminate. Qed.
 Print Assumptions C06_schedules_terminate.
 
-(* Process-group creations are the same on all ranks when every rank creates all state meshes (the repair of F7),
-   and in the code as it is when groups have one rank. *)
-Theorem C06_creation_logs_equal_guarded :
+(* All ranks perform the same sequence of process-group creations, over the whole run, for every history, world and
+   group size.  p_eager_meshes = true is the code since the repair of defect F7 (every rank creates the state meshes
+   of all group source ranks in the constructor). *)
+Theorem C06_creation_logs_equal :
+  forall (bstate value grad : Type) (P : params bstate value grad) (h : history grad) v0 st0 b0 c,
+    p_eager_meshes P = true -> ddp_run P h (init_cluster P v0 st0 b0) = Some c ->
+    forall r r', r < p_world P -> r' < p_world P -> creations (log (cget c r)) = creations (log (cget c r')).
+Proof. exact @creation_logs_equal. Qed.
+Print Assumptions C06_creation_logs_equal.
+
+(* (the constructor's sequence itself; also equal in the pre-repair variant when groups have one rank) *)
+Theorem C06_ctor_logs_equal :
   forall (bstate value grad : Type) (P : params bstate value grad),
     (p_eager_meshes P = true \/ p_gs P = 1) -> forall r r', ctor_log P r = ctor_log P r'.
 Proof. exact @creation_logs_equal_guarded. Qed.
-Print Assumptions C06_creation_logs_equal_guarded.
+Print Assumptions C06_ctor_logs_equal.
 
-(* EXPECTED REFUTATION (defect F6): on the code as it is, a history in which all blocks owned by one rank lack a
+(* REFUTED CLAUSE (defect F6, known finding C06:rank-starvation): on the code as it is (p_global_skip = false), a history in which all blocks owned by one rank lack a
    gradient at some step makes that rank skip the all-gather: in lock step its peer is left waiting, and with
    collectives matched in issue order a maximal schedule deadlocks with different collective sequences, parameters
    and step counters inside one group. *)
@@ -107,8 +117,9 @@ Theorem C06_starvation_desync_refuted :
 Proof. exact starvation_desync_refuted. Qed.
 Print Assumptions C06_starvation_desync_refuted.
 
-(* EXPECTED REFUTATION (defect F7): on the code as it is, ranks issue different process-group creations - with
-   1 < group size < world size even different groups at the same position of the sequence. *)
+(* Defect F7 (repaired in /repo by 48e7571), kept as a lemma about the pre-repair variant p_eager_meshes = false:
+   ranks issue different process-group creations - with 1 < group size < world size even different groups at the
+   same position of the sequence.  (This is why the hypothesis of C06_creation_logs_equal cannot be dropped.) *)
 Theorem C06_mesh_creation_logs_differ_refuted :
   exists P : params Z Z Z,
     wf_config P /\ p_eager_meshes P = false /\ (forall r, r < p_world P -> owns_any P r = true) /\
